@@ -7,11 +7,11 @@ from . import extras_common
 
 PID = "C18"
 RULE = ("parse cases = texts rendered by spec/TextFormat.tla (every partial ranking over <=3/4 elements x 108 variants: "
-        "brace/bracket, surrounding whitespace, name prefix, separators x 5 naming kinds: ints, multi-digit ints, ints from 0, "
+        "brace/bracket, surrounding whitespace, name prefix, separators x 7 naming kinds: ints, multi-digit ints, ints from 0, names starting with a digit, dashes, "
         "letters, words); total cases = every string over the 9-character alphabet up to a length (batches of 1000); "
         "file cases = every dataset of the grid written to a fresh file and read back; non-trivial = rankings with >= 2 "
         "elements / every batch / datasets with >= 2 rankings or an empty ranking")
-EXHAUSTIVE = {"quick": "26 rankings x 108 variants x 5 namings; all 66430 strings of length <= 5; all 700 datasets as files",
+EXHAUSTIVE = {"quick": "26 rankings x 108 variants x 7 namings; all 66430 strings of length <= 5; all 700 datasets as files",
               "thorough": "150 rankings (4 elements) x variants; all 597871 strings of length <= 6 (+ 7 sampled); "
                           "18275 datasets as files"}
 ASSUMPTIONS = ["equality of datasets read back is decided by TLC on the projected rankings (bag equality), not by the "
@@ -40,7 +40,8 @@ def _export(what, n, maxlen):
 
 NAMES = {"ints": lambda x: x, "big": lambda x: 100 + x, "zero": lambda x: x - 1, "letters": lambda x: "abcde"[x - 1],
          "words": lambda x: ["ab", "ba", "abc", "x1", "y_2"][x - 1],
-         "dash": lambda x: ["--1", "---42", "-a", "a-b", "x--"][x - 1]}
+         "dash": lambda x: ["--1", "---42", "-a", "a-b", "x--"][x - 1],
+         "digitlead": lambda x: ["1a", "2b", "30x", "4th", "5S"][x - 1]}
 
 
 def run_parse(case):
@@ -158,6 +159,14 @@ def long_neighbour_cases(rng, count):
             out.append("[" + op + body + " " + cl + "]")
     rng.shuffle(out)
     out = out[:count]
+    # many buckets (30 to 60) separated by blanks only, by commas, or not at all, with the fault after them
+    for nb in (30, 45, 60):
+        for op, cl in (("{", "}"), ("[", "]")):
+            bks = [op + "g%d" % k + cl for k in range(nb)]
+            for sep in (" ", ", ", ",", "", "  "):
+                body = sep.join(bks)
+                out += ["[" + body + "]", "[" + body + " oops]", "[" + body + sep + "]", "[" + body + " " + op + "]",
+                        "[" + body + "," + "]", "[" + body]
     return [{"strings": out[k:k + 8]} for k in range(0, len(out), 8)]
 
 
@@ -216,7 +225,7 @@ def models(tier):
                   "scanner model (Python find/slice semantics transcribed): terminates on every string up to the bound "
                   "with outcome ok/ValueError only; reads back every rendered text"),
             Model("TextFormat", "TextFormat_thm_small.cfg" if tier == "quick" else "TextFormat_thm.cfg",
-                  "the rendered text determines the ranking (Render is injective across variants), 5 naming kinds")]
+                  "the rendered text determines the ranking (Render is injective across variants), 7 naming kinds")]
 
 
 def stages(tier, rng, only=None):
